@@ -356,6 +356,14 @@ def check_header_write(f, run, rule, b, tag, count_ok=None):
             continue
         w = [e for e in p.calls() if called(e[1], 'WriteBytesExt::write_u32')]
         if not w:
+            # the same word appended as `buf.extend_from_slice(&word.to_be_bytes())`
+            for e in p.calls():
+                if called(e[1], 'Vec::extend_from_slice') and len(e[2]) == 2:
+                    a_ = deref_all(e[2][1])
+                    if is_call(a_, 'to_be_bytes') and a_[2]:
+                        w = [(e[0], e[1], (e[2][0], a_[2][0])) + tuple(e[3:])]
+                        break
+        if not w:
             if p.end[0] in ('return', 'backedge', 'stop'):
                 # the header word may be handed to a helper of this crate that writes it
                 deleg = [e for e in p.calls() if e[1] in f.bodies and any(
